@@ -21,7 +21,7 @@ def one(i):
     shutil.copytree(sd0, sd)
     os.makedirs(os.path.join(sd, "out"))
     with open(os.path.join(sd, "PeerSwapCfgs.tla"), "w") as f:
-        f.write("----------------------------- MODULE PeerSwapCfgs -----------------------------\nCONFIGS == {\n  " + cfgs[i] + "}\n===============================================================================\n")
+        f.write("----------------------------- MODULE PeerSwapCfgs -----------------------------\nEXTENDS Integers\nCONFIGS == {\n  " + cfgs[i] + "}\n===============================================================================\n")
     t0 = time.time()
     try:
         r = vp.tlc("PeerSwapExport", "PeerSwapExport.cfg", sd, workers=1, timeout=int(os.environ.get("MEASURE_TIMEOUT", "3600")), heap="6g", quiet=True)
